@@ -143,6 +143,25 @@ fn case_run(tables: &Tables, content: &[u8], cuts: &[usize]) -> (Vec<Failure>, b
             ));
         }
     }
+    // 1b. the same single input read from a pipe (length unknown in advance, not seekable)
+    if cuts.len() == 1 {
+        let st = sut::parse("SELECT input FROM t").unwrap();
+        let r = sut::run_opened_files(tables, &st, vec![sut::pipe_file(content)], FileRunOpts { format: OutputFormat::Json, ..Default::default() });
+        if let Outcome::Ok(fr) = &r {
+            let got: Vec<Vec<u8>> = fr.printed.iter().filter(|l| !l.is_empty()).map(|l| serde_json::from_str::<J>(l).ok().and_then(|j| j["input"].as_str().map(|s| s.as_bytes().to_vec())).unwrap_or_else(|| b"<unparsable>".to_vec())).collect();
+            let ok = if fr.result.is_err() { !all_valid } else { explains(&exp, &got) };
+            if !ok {
+                out.push(fail(
+                    format!("lines:pipe:{}", feature),
+                    format!("SELECT input over a pipe: delivered {} lines, reference has {}; result {:?}", got.len(), exp.len(), fr.result),
+                    json!({"content_hex": hex(content), "cuts": cuts, "statement": "pipe"}),
+                    json!(exp.iter().map(|e| String::from_utf8_lossy(&e.0).to_string()).collect::<Vec<_>>()),
+                    json!({"lines": got.iter().map(|e| String::from_utf8_lossy(e).to_string()).collect::<Vec<_>>()}),
+                    content.len() as u64 * 10,
+                ));
+            }
+        }
+    }
     // 3. joined side (single file only): main table m has the one line "a"; joined rows = lines equal to "a"
     if cuts.len() == 1 {
         let tmp = sut::TempFiles::new(&[content]);
@@ -310,11 +329,81 @@ pub fn run(ctx: &Ctx) -> i32 {
                 break;
             }
         }
+        // --stdin: the input arrives on a pipe
+        if !cli_missing {
+            for c in contents.iter().chain([&b"a\nb\nc\r\n\nd"[..]].iter()) {
+                let args: Vec<&str> = vec!["-d", &defp, "--stdin", "--format", "json", "-c", "SELECT input FROM t"];
+                if let Some(got) = sut::run_cli_stdin(&args, c) {
+                    let exp: Vec<String> = ref_lines(c).iter().map(|l| { let mut l = l.clone(); if l.last() == Some(&0u8) { l.pop(); } String::from_utf8_lossy(&l).to_string() }).collect();
+                    let out: Vec<String> = got.0.iter().filter(|l| !l.is_empty()).map(|l| serde_json::from_str::<J>(l).ok().and_then(|j| j["input"].as_str().map(|s| s.to_string())).unwrap_or_else(|| format!("<{}>", l))).collect();
+                    ncli += 1;
+                    col.eval(1);
+                    col.nontrivial(h64(&("cli-stdin", c)));
+                    if out != exp {
+                        col.fail(fail("lines:cli:stdin".into(), format!("sqlgrep --stdin fed {:?} printed {:?}, expected {:?}", String::from_utf8_lossy(c), out, exp), json!({"layer": "cli", "stdin": hex(c)}), json!(exp), json!({"stdout": out, "stderr": got.1.lines().take(3).collect::<Vec<_>>()}), 1));
+                    }
+                }
+            }
+            // sessions: all sequences (<= 3) of statements typed into one running program over two input files; every
+            // statement reads every line of every file again, whatever happened before
+            let tmp = sut::TempFiles::new(&[&b"a\nb\n"[..], &b"c\nd"[..]]);
+            let menu = ["SELECT input FROM t;", "SELECT nosuch FROM t;", "SELEC;", "SELECT COUNT(*) FROM t;", "SELECT input FROM t WHERE input = 'c';"];
+            let km = menu.len() as u64;
+            for idx in 0..seq_count(km, 3) {
+                let seq = seq_decode(idx, km, 3);
+                if seq.is_empty() {
+                    continue;
+                }
+                let script: String = seq.iter().map(|i| format!("{}\n", menu[*i as usize])).collect();
+                let args: Vec<&str> = vec!["-d", &defp, &tmp.paths[0], &tmp.paths[1], "--format", "json"];
+                let got = match sut::run_cli_stdin(&args, script.as_bytes()) {
+                    Some(g) => g,
+                    None => break,
+                };
+                let mut exp: Vec<String> = Vec::new();
+                for i in &seq {
+                    match *i {
+                        0 => exp.extend(["in:a", "in:b", "in:c", "in:d"].iter().map(|s| s.to_string())),
+                        3 => exp.push("n:4".into()),
+                        4 => exp.push("in:c".into()),
+                        _ => {}
+                    }
+                }
+                let mut out: Vec<String> = Vec::new();
+                for l in &got.0 {
+                    let l = l.trim_start_matches("> ").trim();
+                    if let Ok(j) = serde_json::from_str::<J>(l) {
+                        if let Some(o) = j.as_object() {
+                            if let Some(s) = o.get("input").and_then(|v| v.as_str()) {
+                                out.push(format!("in:{}", s));
+                            } else if let Some(n) = o.values().next().and_then(|v| v.as_i64()) {
+                                out.push(format!("n:{}", n));
+                            }
+                        }
+                    }
+                }
+                ncli += 1;
+                col.eval(1);
+                if seq.len() >= 2 {
+                    col.nontrivial(h64(&("cli-session", &seq)));
+                }
+                if out != exp {
+                    col.fail(fail(
+                        format!("lines:cli:session:{}", if seq.iter().any(|i| *i == 1 || *i == 2) { "after-failed-statement" } else { "plain" }),
+                        format!("session {:?} over files [a b | c d] printed {:?}, expected {:?}", seq.iter().map(|i| menu[*i as usize]).collect::<Vec<_>>(), out, exp),
+                        json!({"layer": "cli", "session": seq}),
+                        json!(exp),
+                        json!({"stdout": got.0, "stderr": got.1.lines().take(3).collect::<Vec<_>>()}),
+                        seq.len() as u64,
+                    ));
+                }
+            }
+        }
         std::fs::remove_file(&defp).ok();
         if cli_missing {
             col.note("CLI binary not built: CLI layer skipped".into());
         } else {
-            col.layer("command line program: file subsets in both orders", ncli, true, json!({"files": 5}));
+            col.layer("command line program: file subsets in both orders", ncli, true, json!({"files": 5, "stdin_contents": 6, "session_menu": 5, "session_max_len": 3}));
         }
     }
     finish(
